@@ -77,3 +77,72 @@ func (p *c20) noItemSearches(x *res, adapter string) {
 		}
 	}
 }
+
+// rejectedNativeUpdate: "an update ... fails ... without touching the item" holds for a REGISTERED updater too when
+// the operation is refused after the updater ran (its result gives an index key attribute another type than
+// declared, or loses the sort key): whatever the updater did to the values it was handed - replaced them, or edited
+// them IN PLACE through the pointers - the stored item and every index read are what they were.
+func (p *c20) rejectedNativeUpdate(x *res, adapter string) {
+	spec := adapt.TableSpec{Name: "tbr", Hash: "h", Range: "r", Billing: "PAY_PER_REQUEST", Indexes: []adapt.IndexSpec{{Name: "gsi1", Hash: "g"}}}
+	edits := []struct {
+		name string
+		edit func(item map[string]*mtypes.Item)
+	}{
+		{"replace-values", func(item map[string]*mtypes.Item) { s := "edited"; item["a"] = &mtypes.Item{S: &s} }},
+		{"string-in-place", func(item map[string]*mtypes.Item) { *item["a"].S = "edited in place" }},
+		{"number-in-place", func(item map[string]*mtypes.Item) { *item["n"].N = "999" }},
+		{"list-element-in-place", func(item map[string]*mtypes.Item) { *item["l"].L[0].S = "edited element" }},
+		{"list-append-in-place", func(item map[string]*mtypes.Item) { s := "appended"; item["l"].L = append(item["l"].L, &mtypes.Item{S: &s}) }},
+		{"map-member-in-place", func(item map[string]*mtypes.Item) { s := "added"; item["m"].M["added"] = &mtypes.Item{S: &s}; *item["m"].M["x"].S = "edited member" }},
+		{"set-member-in-place", func(item map[string]*mtypes.Item) { *item["ss"].SS[0] = "edited member" }},
+		{"binary-in-place", func(item map[string]*mtypes.Item) { item["b"].B[0] = 'X' }},
+		{"bool-in-place", func(item map[string]*mtypes.Item) { *item["f"].BOOL = !*item["f"].BOOL }},
+	}
+	rejections := []struct {
+		name string
+		then func(item map[string]*mtypes.Item)
+	}{
+		{"index-key-retyped", func(item map[string]*mtypes.Item) { n := "5"; item["g"] = &mtypes.Item{N: &n} }},
+		{"sort-key-removed", func(item map[string]*mtypes.Item) { delete(item, "r") }},
+	}
+	stored := val.Item{"h": val.Str("k"), "r": val.Str("s"), "g": val.Str("x"), "a": val.Str("1"), "n": val.Num("7"), "l": val.List(val.Str("e0"), val.Str("e1")),
+		"m": val.Map(map[string]val.V{"x": val.Str("y")}), "ss": val.SS("p", "q"), "b": val.Bin("bytes"), "f": val.Bool(true)}
+	for _, ed := range edits {
+		for _, rj := range rejections {
+			ed, rj := ed, rj
+			cl := adapt.New(adapter)
+			nc := nativeOf(cl)
+			native := interpreter.NewNativeInterpreter()
+			native.AddUpdater(spec.Name, "SET a = :v", func(item map[string]*mtypes.Item, _ map[string]*mtypes.Item) {
+				ed.edit(item)
+				rj.then(item)
+			})
+			nc.setInterp(native)
+			nc.activate()
+			cl.Do(createOp(spec))
+			if o := cl.Do(adapt.Op{Kind: adapt.OpPut, Table: spec.Name, Item: stored}); o.Class != adapt.ClsOK {
+				x.viol("setup", "put", o.Msg, nil)
+				return
+			}
+			key := val.Item{"h": val.Str("k"), "r": val.Str("s")}
+			got := cl.Do(adapt.Op{Kind: adapt.OpUpdate, Table: spec.Name, Key: key, Update: "SET a = :v", Values: val.Item{":v": val.Str("z")}})
+			x.r.Evals++
+			x.r.Counters["rejected_native_updates"]++
+			x.fp(true, "%s|rejected-native|%s|%s", adapter, ed.name, rj.name)
+			wit := map[string]interface{}{"adapter": adapter, "updater_edit": ed.name, "rejection": rj.name, "outcome": got}
+			if got.Class == adapt.ClsRuntime {
+				x.viol("runtime-panic", got.Site, fmt.Sprintf("[%s] native updater (%s, %s): runtime panic at %s: %s", adapter, ed.name, rj.name, got.Site, got.Msg), wit)
+				continue
+			}
+			if got.Class == adapt.ClsOK {
+				x.viol("ill-result-of-updater-accepted", rj.name, fmt.Sprintf("[%s] the updater's result (%s) was stored although it breaks the table's schema", adapter, rj.name), wit)
+				continue
+			}
+			back := cl.Do(adapt.Op{Kind: adapt.OpGet, Table: spec.Name, Key: key})
+			ix := cl.Do(adapt.Op{Kind: adapt.OpScan, Table: spec.Name, Index: "gsi1"})
+			if !val.ItemsEqual(back.Item, stored) || len(ix.Items) != 1 || !val.ItemsEqual(ix.Items[0], stored) {
+				x.viol("failed-update-touched-item", "registered-updater/"+ed.name, fmt.Sprintf("[%s] UpdateItem was refused (%s) after the registered updater ran (%s), but the stored item now reads %s and the index returns %s; it was %s", adapter, got.Class, ed.name, back.Item.Canon(), adapt.ItemsCanon(ix.Items), stored.Canon()), wit)
+			}
+		}
+	}
+}
